@@ -119,6 +119,7 @@ type r3Query struct {
 	xs     string // script of this request (overrides X-Script)
 	rn     int    // that many more redirects to the same place first
 	nt     string // note token
+	dl     int    // round 6: answer that many milliseconds late
 	hasXS  bool
 	rawQry string
 }
@@ -148,6 +149,8 @@ func r3ParseTarget(target string) r3Query {
 			q.rn, _ = strconv.Atoi(kv[3:])
 		case strings.HasPrefix(kv, "nt="):
 			q.nt = kv[3:]
+		case strings.HasPrefix(kv, "dl="):
+			q.dl, _ = strconv.Atoi(kv[3:])
 		}
 	}
 	return q
@@ -232,6 +235,9 @@ func (t *r3Target) handle(c net.Conn) {
 		if q.nt != "" {
 			r3Seen(q.nt, false)
 		}
+		if q.dl > 0 {
+			time.Sleep(time.Duration(q.dl) * time.Millisecond) // round 6: a slow target
+		}
 		script := h.Get("X-Script")
 		if q.hasXS {
 			script = q.xs
@@ -315,6 +321,9 @@ func r3TLSHandler(base *string) http.HandlerFunc {
 		if q.nt != "" {
 			r3Seen(q.nt, false)
 			defer r3Seen(q.nt, true)
+		}
+		if q.dl > 0 {
+			time.Sleep(time.Duration(q.dl) * time.Millisecond)
 		}
 		script := r.Header.Get("X-Script")
 		if q.hasXS {
